@@ -304,9 +304,15 @@ func c04doc(w *report.W, label string, in *docgen.N, presentation string, seamBo
 	// error probe at every position
 	for _, id := range st.positions {
 		ptext, _, err := build(id)
-		if err != nil || ptext == text {
-			w.HarnessError("cannot place error probe for %s: %v", id, err)
+		if err != nil {
+			w.HarnessError("cannot place error probe for %s (%s) in [%s] %s: %v", id, st.where[id], label, text, err)
 			return
+		}
+		if ptext == text {
+			// the position is not part of the document as rendered (JSON has no merges: the value of an inline merge
+			// source that a later explicit key overrides is dropped by the renderer)
+			w.Count("probe_positions_not_rendered", 1)
+			continue
 		}
 		w.P.Evaluations++
 		o := c04once(ptext, nil)
